@@ -26,6 +26,7 @@ type UnitSpec struct {
 	Tier       string   `json:"tier,omitempty"`   // "thorough": only in the thorough tier
 	TimeoutS   int      `json:"timeout_s,omitempty"`
 	MaxInline  int      `json:"max_inline,omitempty"`
+	MaxRec     int      `json:"max_rec,omitempty"`
 	Reveal     bool     `json:"reveal,omitempty"`
 	Paths      bool     `json:"paths,omitempty"`    // path mode (bounded lemmas): fork at branches, never merge
 	Ints       string   `json:"ints,omitempty"`     // "math": Go's int is a mathematical integer in this unit
@@ -180,6 +181,7 @@ func RunProperty(id, tier string) int {
 		SetIntMode(us.Ints == "math")
 		opt.Overflow = us.Overflow
 		opt.Paths = us.Paths
+		opt.MaxRec = us.MaxRec
 		if us.Ints == "math" && !us.Overflow {
 			notes.Assumed["int arithmetic treated as mathematical (no overflow obligations) in "+us.Func] = true
 		}
@@ -399,6 +401,14 @@ func RunProperty(id, tier string) int {
 				payload["smt2"] = string(sm)
 			}
 			suffix := " no-failing-input-found"
+			if r.spec.Kind == "lemma" && len(r.fn.Params) == 0 && !(res.Status == Refuted && res.Model != nil) {
+				// a lemma without parameters is its own counterexample: run it on the real code
+				ro := ReplayLemma(prog, r.fn, nil, map[string]string{}, work)
+				payload["replay"] = ro
+				if ro.Confirmed {
+					suffix = ""
+				}
+			}
 			if res.Status == Refuted && res.Model != nil {
 				payload["model"] = res.Model
 				if r.spec.Kind == "lemma" {
